@@ -1,12 +1,16 @@
-"""C05 — simulation-based check (real executor code on the simulated kernel) + monitors."""
+"""C05 — Coq theorems over coq/Model/Pool.v (lists regenerated from the source) + simulation of the real executor code with monitors."""
 from checks import simcommon as S
 
 FAMILIES = ['shutdown', 'latekill']
 PER_FAMILY = (500, 10000)
 
 
+PROOF = S.pool_proof('C05', ['C05_graceful_never_drops', 'C05_graceful_delivers_everything', 'C05_submit_after_shutdown_raises', 'C05_structure'],
+                    'the sentinel hand-shake through a full call queue (more sentinels than slots) and the GC / interpreter-exit triggers are exercised by the simulation, not modelled beyond the flags')
+
+
 def run(ctx):
-    return S.sim_check(ctx, FAMILIES, FAMILIES, PER_FAMILY, S.SIM_ASSUME)
+    return S.sim_check(ctx, FAMILIES, FAMILIES, PER_FAMILY, S.SIM_ASSUME, proof=PROOF)
 
 
 def replay(ctx, path):
